@@ -412,6 +412,14 @@ def compare(lines, script, split=None):
     return None
 
 
+def _uid_known(pwd_, u):
+    try:
+        pwd_.getpwuid(u)
+        return True
+    except KeyError:
+        return False
+
+
 def protocol_cases():
     from twisted.internet.testing import StringTransport
     from txdbus import bus, protocol
@@ -499,11 +507,15 @@ def protocol_cases():
         # the first byte and the lines are cut into reads
         import struct as _st, binascii, os
 
+        import pwd as _pwd
+        unknown_uid = next(u for u in range(54321, 64000) if not _uid_known(_pwd, u))
+
         class CredSocket:
             pid = None
+            uid = None
 
             def getsockopt(self, level, opt, size):
-                return _st.pack('3i', os.getpid() if self.pid is None else self.pid, os.getuid(), os.getgid())
+                return _st.pack('3i', os.getpid() if self.pid is None else self.pid, os.getuid() if self.uid is None else self.uid, os.getgid())
 
         class CredTransport(StringTransport):
             socket = CredSocket()
@@ -511,13 +523,17 @@ def protocol_cases():
         protocol._is_linux = True
         try:
             for how, cuts in (('one read', []), ('NUL alone, then the rest', [1]), ('NUL alone, then one line per read', [1, ext.index(b'\r\n') + 2]),
-                              ('one byte per read', list(range(1, len(ext)))), ('one read, peer in another PID namespace: pid 0', [])):
+                              ('one byte per read', list(range(1, len(ext)))), ('one read, peer in another PID namespace: pid 0', []),
+                              ('one read, a uid without an entry in the user database', []), ('NUL alone, then one line per read, a uid without an entry in the user database', [1, ext.index(b'\r\n') + 2])):
                 p = bus.BusProtocol()
                 p.factory = F
                 t = CredTransport()
                 t.socket = CredSocket()
                 if 'pid 0' in how:
                     t.socket.pid = 0
+                if 'without an entry' in how:
+                    t.socket.uid = unknown_uid
+                    ext = b'\0AUTH EXTERNAL ' + binascii.hexlify(str(unknown_uid).encode('ascii')) + b'\r\nDATA\r\nBEGIN\r\n'
                 p.makeConnection(t)
                 prev = 0
                 try:
